@@ -240,6 +240,14 @@ const C11_TAGS: [&str; 8] = ["Alpha", "Bravo", "Charlie", "Delta", "Echo", "Foxt
 
 /// Render file `i` of an import graph: edges given as adjacency bit mask (bit i*n+j = i imports j).
 pub fn c11_render(n: usize, mask: u64, i: usize, dup: bool) -> String {
+    c11_render_layout(n, mask, i, dup, 0)
+}
+
+/// `layout` varies what XSD allows around the imports (`(include | import | redefine | annotation)*` before the components):
+/// 0 imports first, nothing else; 1 a schema-level annotation before the imports; 2 an annotation after the first import;
+/// 3 a comment and a processing instruction between the imports; 4 imports written as non-empty elements that carry their own
+/// annotation; 5 attribute order schemaLocation, namespace; 6 an annotation after every import.
+pub fn c11_render_layout(n: usize, mask: u64, i: usize, dup: bool, layout: u64) -> String {
     let mut s = String::new();
     s.push_str(&format!(
         "<?xml version=\"1.0\"?>\n<xs:schema xmlns:xs=\"http://www.w3.org/2001/XMLSchema\" targetNamespace=\"{}\" elementFormDefault=\"qualified\" xmlns:own=\"{}\"",
@@ -251,11 +259,30 @@ pub fn c11_render(n: usize, mask: u64, i: usize, dup: bool) -> String {
         }
     }
     s.push_str(">\n");
+    let note = "  <xs:annotation><xs:documentation>schema level note</xs:documentation></xs:annotation>\n";
+    if layout == 1 {
+        s.push_str(note);
+    }
+    let mut written = 0;
     for j in 0..n {
         if mask >> (i * n + j) & 1 == 1 {
             let reps = if dup { 2 } else { 1 };
             for _ in 0..reps {
-                s.push_str(&format!("  <xs:import namespace=\"{}\" schemaLocation=\"f{j}.xsd\"/>\n", C11_URIS[j]));
+                match layout {
+                    4 => s.push_str(&format!(
+                        "  <xs:import namespace=\"{}\" schemaLocation=\"f{j}.xsd\">\n    <xs:annotation><xs:documentation>why</xs:documentation></xs:annotation>\n  </xs:import>\n",
+                        C11_URIS[j]
+                    )),
+                    5 => s.push_str(&format!("  <xs:import schemaLocation=\"f{j}.xsd\" namespace=\"{}\"/>\n", C11_URIS[j])),
+                    _ => s.push_str(&format!("  <xs:import namespace=\"{}\" schemaLocation=\"f{j}.xsd\"/>\n", C11_URIS[j])),
+                }
+                written += 1;
+                if (layout == 2 && written == 1) || layout == 6 {
+                    s.push_str(note);
+                }
+                if layout == 3 {
+                    s.push_str("  <!-- between imports -->\n  <?zv between?>\n");
+                }
             }
         }
     }
@@ -290,7 +317,7 @@ fn run_c11(job: &Value) -> Value {
         }
         let content = match job["replace"].get(i.to_string()).and_then(Value::as_str) {
             Some(c) => c.to_string(),
-            None => c11_render(n, mask, i, dup),
+            None => c11_render_layout(n, mask, i, dup, job["layout"].as_u64().unwrap_or(0)),
         };
         files.insert(format!("f{i}.xsd"), json!(content));
     }
